@@ -53,6 +53,7 @@ CRITERIA = [
     ("end_thr0", lambda: [mc.seqid, mc.overlap_end_threshold(0)]),
     ("end_thr2", lambda: [mc.seqid, mc.overlap_end_threshold(2)]),
     ("any_thr1", lambda: [mc.seqid, mc.overlap_any_threshold(1)]),
+    ("any_thr2", lambda: [mc.seqid, mc.overlap_any_threshold(2)]),
     ("start_thr1", lambda: [mc.seqid, mc.overlap_start_threshold(1)]),
     ("custom_two_max", lambda: [mc.seqid, mc.overlap_end_inclusive, two_max]),
     ("custom_falsy", lambda: [mc.seqid, overlap_falsy]),
@@ -68,6 +69,7 @@ REF = {
     "end_thr0": lambda a, b, s, e, n: a <= s <= b,
     "end_thr2": lambda a, b, s, e, n: a <= s <= b + 2,
     "any_thr1": lambda a, b, s, e, n: a - 1 <= e + 1 <= b + 1 or a <= s <= b + 1,
+    "any_thr2": lambda a, b, s, e, n: a - 2 <= e + 1 <= b + 1 or a <= s <= b + 2,
     "start_thr1": lambda a, b, s, e, n: a - 1 <= e + 1 <= b + 1,
     "custom_two_max": lambda a, b, s, e, n: a <= s <= b + 1 and n < 2,
     "custom_falsy": lambda a, b, s, e, n: a <= s <= b + 1,
@@ -285,12 +287,15 @@ def body_db(ch, ctx):
     _, _, i0, i1 = ctx.shard
     m3 = [m for m in msets(ctx.tier) if len(m) <= 3 or ctx.tier == "quick"]
     ms = ch.choose("multiset", m3[i0:i1])
-    op = ch.choose("operation", ("merge_all", "merge_all_exclude", "children_bp", "children_bp_merge", "merge_all_thr2", "merge_all_exact"))
+    op = ch.choose("operation", ("merge_all", "merge_all_exclude", "children_bp", "children_bp_merge", "merge_all_thr2", "merge_all_exact", "merge_all_two_groups"))
     file_order = ch.choose("file_order", ("ascending", "descending"))
     # every exon names both its transcript and the gene: it is a child of g1 at level 1 AND (through t1) at level 2
     lines = ["c1\ts\tgene\t1\t9\t.\t+\t.\tID=g1", "c1\ts\tmRNA\t1\t9\t.\t+\t.\tID=t1;Parent=g1"]
     exon_lines = ["c1\ts\texon\t%d\t%d\t.\t+\t.\tID=x%d;Parent=t1,g1" % (s, e, i) for i, (s, e) in enumerate(ms)]
     lines += exon_lines if file_order == "ascending" else exon_lines[::-1]
+    if op == "merge_all_two_groups":
+        # a second featuretype group with the same intervals: each group is merged on its own
+        lines += ["c1\ts\tCDS\t%d\t%d\t.\t+\t0\tID=c%d;Parent=t1" % (s, e, i) for i, (s, e) in enumerate(ms)]
     wd = ctx.fresh_dir()
     path = dbutil.write_text(wd, "in.gff", "\n".join(lines) + "\n")
     db = gffutils.create_db(path, os.path.join(wd, "o.db"), verbose=False)
@@ -322,28 +327,30 @@ def body_db(ch, ctx):
     mkw = {}
     if crit_name != "default":
         mkw["merge_criteria"] = dict(CRITERIA)[crit_name]()
+    groups = (("exon",), ("CDS",)) if op == "merge_all_two_groups" else (("exon",),)
     try:
-        res = db.merge_all(exclude_components=excl, featuretypes_groups=(("exon",),), **mkw)
+        res = db.merge_all(exclude_components=excl, featuretypes_groups=groups, **mkw)
     except Exception as ex:
         ctx.fail("merge_all-raised", dict(sig, exc=type(ex).__name__), intervals=list(ms), message=str(ex)[:200])
         return
     multi = [r for r in runs if len(r) > 1]
-    ctx.check(len(res) == len(multi), "merge_all-result-count-differs", sig, intervals=list(ms), got=len(res), expected=len(multi))
+    ngroups = len(groups)
+    ctx.check(len(res) == ngroups * len(multi), "merge_all-result-count-differs", sig, intervals=list(ms), got=len(res), expected=ngroups * len(multi))
     c = dbutil.canon(db)
     ids = [r[0] for r in c["features"]]
     on_disk = dbutil.canon(os.path.join(wd, "o.db"))          # through a second connection: what a reopening process would see
     ctx.check(dbutil.content_only(on_disk) == dbutil.content_only(c), "merge_all-result-not-committed", sig, intervals=list(ms),
               live=[r[0] for r in c["features"]], on_disk=[r[0] for r in on_disk["features"]],
               live_relations=len(c["relations"]), on_disk_relations=len(on_disk["relations"]))
-    new = [r for r in c["features"] if r[0] not in {"t1", "g1"} | {"x%d" % i for i in range(len(ms))}]
-    exp_ext = sorted((min(rows[j][3] for j in r), max(rows[j][4] for j in r)) for r in multi)
+    new = [r for r in c["features"] if r[0] not in {"t1", "g1"} | {"x%d" % i for i in range(len(ms))} | {"c%d" % i for i in range(len(ms))}]
+    exp_ext = sorted(ngroups * [(min(rows[j][3] for j in r), max(rows[j][4] for j in r)) for r in multi])
     ctx.check(sorted((r[4], r[5]) for r in new) == exp_ext, "merge_all-stored-extents-differ", sig, intervals=list(ms),
               got=sorted((r[4], r[5]) for r in new), expected=exp_ext)
     for r in multi:
         ext = (min(rows[j][3] for j in r), max(rows[j][4] for j in r))
         owner = [x[0] for x in new if (x[4], x[5]) == ext]
-        for j in r:
-            mid = "x%d" % j
+        for j in [("x", j) for j in r] + ([("c", j) for j in r] if ngroups == 2 else []):
+            mid = "%s%d" % j
             if excl:
                 ctx.check(mid not in ids, "merge_all-component-not-deleted", sig, intervals=list(ms), id=mid)
             else:
